@@ -5,6 +5,7 @@ import math
 from fractions import Fraction as F
 
 import numpy as np
+import sympy
 
 import core
 import cppgen
@@ -13,15 +14,32 @@ import fk
 import gen
 import runtime_h as rh
 
+# one line per fixed stream (name: inputs -> what has to agree)
+DET_COVERAGE = [
+    "calib-twice: ONE symbolic model whose readings contain calibration symbols, built as several Python filter objects in one process "
+    "(fresh model objects, same expressions) with DIFFERENT calibration values (same noises), each compared with the generated C++ fed "
+    "that filter's calibration at run time (a filter uses its own calibration values, whatever was built before it)",
+    "mixed-keys: readings and their noises spelled with different key types that name the same readings (str readings with Symbol "
+    "noise keys; a Symbol reading with a str noise key), all noises different from 1 and from each other, same spelling given to both "
+    "back-ends",
+    "signs: CSE on, atan2 bearing in the left half plane, sqrt(v^2) with v < 0 in an update expression and a reading, v*sqrt(v^2), "
+    "evaluated only where the sign-carrying arguments are negative",
+    "control-order: three controls with pairwise different noises given as a LIST that is not in name order, a control Jacobian whose "
+    "columns all differ (state-dependent), predictions compared (covariance = G P G^T + V M V^T pairs each control with its own noise)",
+]
 RULE = ("the same definition/noise/calibration/config compiled as a Python filter and as generated C++ (g++), driven through chains of "
         "prediction and sensor-update steps with identical binary64 inputs (the Python result feeds the next step of both); compared by "
         "name: state, covariance, stored innovation, accept/reject; all control/calibration presences, CSE on/off, k>0 or disabled; distinct "
-        "by (definition, config, step input); non-trivial = update with >=2 readings or prediction with control")
+        "by (definition, config, step input); non-trivial = update with >=2 readings or prediction with control; plus four fixed "
+        "(seed-independent) filters driven through fixed histories: " + "; ".join(DET_COVERAGE))
 NOTE = ["on rational definitions every compared step is also run through the exact Lean model on the same binary64 inputs (as exact "
         "rationals) and both filters are compared with it (three-way correspondence)",
         "exact-arithmetic equality of the two association orders is a theorem (C07.predict_same, update_same); binary64 results are compared "
         "under 1e-9 relative tolerance; decisions are compared when the NIS is farther than 1e-7 (relative) from the threshold",
         "C++ built with g++ against the Eigen stand-in (Gauss-Jordan inverse), Python uses numpy/LAPACK"]
+NOTE += ["fixed streams: inputs are constants of the check (no random draws); readings are placed around a by-hand evaluation of the "
+         "reading expressions (sympy, exact rationals of the binary64 inputs), never around a value taken from either filter; the "
+         "comparison is Python filter against generated C++ as for the random streams"]
 PARTIAL = ["Eigen's own evaluation order is not exercised (stand-in)"]
 
 
@@ -236,7 +254,200 @@ def run(ctx):
                 ctx.broke(f"correspondence:{which} (Lean model vs {side} filter)",
                           {"model": {"state": ms, "cov": mP.tolist()}, "impl_state": gs, "impl_cov": np.asarray(gP).tolist()}, info)
                 break
+    # fixed streams last: they draw nothing from ctx.rng
+    _fixed_streams(ctx)
     return core.finish(ctx, audit, NOTE, RULE, PARTIAL)
+
+
+# ---------------------------------------------------------------------------------------------------------------- fixed streams
+def _S(*names):
+    return [sympy.Symbol(n) for n in names]
+
+
+def _fixed_specs():
+    """Filters and histories that are constants of the check.  Every spec: definition, noises, one or more calibrations (one Python
+    filter object per calibration, all compared with the one generated C++ filter, which takes the calibration at run time), the
+    container / key spelling handed to BOTH back-ends, a start (x0, P0) and a script of steps:
+      ("predict", dt, {control: value})   /   ("update", sensor key, {reading: offset from the by-hand predicted reading})"""
+    dt = sympy.Symbol("dt")
+    specs = []
+
+    # -- calib-twice ---------------------------------------------------------------------------------------------------------
+    px, vel = _S("px", "vel"); (acc,) = _S("acc"); bias, gain = _S("bias", "gain")
+    d = gen.Definition(dt, [vel, px], [acc], [gain, bias],
+                       {px: px + vel * dt, vel: vel + (acc - bias) * dt},
+                       {"gps0": {"east": px * gain + bias, "rate": vel - bias * px}, "alt1": {"height": px + gain ** 2 - bias / 2}})
+    script = [("predict", F(1, 16), {"acc": F(3, 2)}), ("update", "gps0", {"east": F(1, 8), "rate": F(-1, 4)}),
+              ("update", "alt1", {"height": F(3, 16)}), ("predict", F(1, 32), {"acc": F(-1, 2)}),
+              ("update", "gps0", {"east": F(-3, 8), "rate": F(1, 16)})]
+    specs.append(dict(name="calib-twice", d=d, process={"acc": F(3, 8)},
+                      sensor={"gps0": {"east": F(5, 8), "rate": F(9, 8)}, "alt1": {"height": F(7, 4)}},
+                      # three filter objects over the same symbolic model, each with its own calibration values
+                      cals=[{"bias": F(1, 2), "gain": F(3, 2)}, {"bias": F(-7, 4), "gain": F(5, 8)}, {"bias": F(13, 8), "gain": F(-2)}],
+                      cse=True, k=5.0, container="set", x0={"px": F(5, 4), "vel": F(-3, 8)},
+                      P0=[[F(3, 2), F(1, 4)], [F(1, 4), F(2)]], script=script))
+
+    # -- mixed-keys ----------------------------------------------------------------------------------------------------------
+    pa, pb = _S("pa", "pb"); (ua,) = _S("ua")
+    d = gen.Definition(dt, [pb, pa], [ua], [],
+                       {pa: pa + dt * pb, pb: pb + dt * ua - dt * pa / 4},
+                       {"alt0": {"rb": pa * pb + pb, "ra": pa + 2 * pb}, "gps1": {"rc": pb - pa / (1 + pa ** 2)}})
+    sensor = {"alt0": {"ra": F(1, 8), "rb": F(5, 2)}, "gps1": {"rc": F(3, 8)}}
+
+    def spell(d=d, sensor=sensor):
+        # str readings + Symbol noise keys (the documented type of sensor_noises);  a Symbol reading + str noise key (the spelling of
+        # featuretests/rocket_model/generator.py).  Fresh dicts on every call.
+        return {"sensor_models": {"alt0": dict(d.sensors["alt0"]), "gps1": {sympy.Symbol("rc"): d.sensors["gps1"]["rc"]}},
+                "sensor_noises": {"alt0": {sympy.Symbol(r): float(v) for r, v in sensor["alt0"].items()}, "gps1": {"rc": float(sensor["gps1"]["rc"])}}}
+    script = [("update", "alt0", {"ra": F(1, 4), "rb": F(-1, 2)}), ("update", "gps1", {"rc": F(3, 8)}),
+              ("predict", F(1, 16), {"ua": F(1)}), ("update", "alt0", {"ra": F(-1, 8), "rb": F(3, 4)}), ("update", "gps1", {"rc": F(-1, 4)})]
+    specs.append(dict(name="mixed-keys", d=d, process={"ua": F(1, 2)}, sensor=sensor, cals=[{}], cse=False, k=5.0,
+                      container="set", raw=spell, x0={"pa": F(3, 4), "pb": F(-5, 4)}, P0=[[F(2), F(-1, 2)], [F(-1, 2), F(3, 2)]], script=script))
+
+    # -- signs ---------------------------------------------------------------------------------------------------------------
+    qx, qy, vv = _S("qx", "qy", "vv"); (thr,) = _S("thr")
+    d = gen.Definition(dt, [qy, vv, qx], [thr], [],
+                       {qx: qx + vv * dt, qy: qy + sympy.sqrt(vv ** 2) * dt / 2, vv: vv + thr * dt - vv * sympy.sqrt(vv ** 2) * dt / 8},
+                       {"radar0": {"bearing": sympy.atan2(qy, qx), "dist": sympy.sqrt(qx ** 2 + qy ** 2)},
+                        "pitot1": {"speed": sympy.sqrt(vv ** 2)}}, transcend=True)
+    script = [("update", "radar0", {"bearing": F(1, 32), "dist": F(-1, 8)}), ("predict", F(1, 16), {"thr": F(-1, 2)}),
+              ("update", "pitot1", {"speed": F(1, 16)}), ("update", "radar0", {"bearing": F(-1, 64), "dist": F(1, 16)}),
+              ("predict", F(1, 32), {"thr": F(1, 4)}), ("update", "pitot1", {"speed": F(-1, 8)})]
+    specs.append(dict(name="signs", d=d, process={"thr": F(1, 4)}, sensor={"radar0": {"bearing": F(1, 64), "dist": F(1, 4)}, "pitot1": {"speed": F(1, 8)}},
+                      cals=[{}], cse=True, k=5.0, container="set", x0={"qx": F(-3), "qy": F(3, 2), "vv": F(-2)},
+                      P0=[[F(1, 4), F(1, 16), F(0)], [F(1, 16), F(1, 2), F(1, 32)], [F(0), F(1, 32), F(3, 8)]], script=script,
+                      # the domain this stream is about: the sign-carrying arguments stay negative along the whole history
+                      domain=lambda x: x["qx"] < -0.5 and x["vv"] < -0.25 and x["qy"] > 0.25))
+
+    # -- control-order -------------------------------------------------------------------------------------------------------
+    sa, sb = _S("sa", "sb"); wa, wb, wc = _S("wa", "wb", "wc")
+    d = gen.Definition(dt, [sb, sa], [wc, wa, wb], [],          # the controls as a list that is NOT in name order
+                       {sa: sa + dt * (wa + 2 * wb * sb) + wc * dt / 4, sb: sb + dt * (wc - wa * sa) + 3 * wb * dt},
+                       {"imu0": {"ma": sa + sb, "mb": sa - 2 * sb}})
+    script = [("predict", F(1, 16), {"wa": F(1), "wb": F(-1, 2), "wc": F(2)}), ("update", "imu0", {"ma": F(1, 8), "mb": F(-1, 4)}),
+              ("predict", F(3, 32), {"wa": F(-3, 4), "wb": F(5, 4), "wc": F(1, 2)}), ("predict", F(1, 32), {"wa": F(0), "wb": F(0), "wc": F(0)})]
+    specs.append(dict(name="control-order", d=d, process={"wa": F(1, 4), "wb": F(2), "wc": F(9, 8)}, sensor={"imu0": {"ma": F(1, 2), "mb": F(3, 4)}},
+                      cals=[{}], cse=True, k=None, container="list", x0={"sa": F(3, 2), "sb": F(-5, 4)},
+                      P0=[[F(1), F(1, 4)], [F(1, 4), F(3, 4)]], script=script))
+    return specs
+
+
+def _hand_reading(d, key, x, cal):
+    """the reading expressions evaluated by hand (exact rationals of the binary64 inputs, 30 digits), by reading name"""
+    rat = lambda v: sympy.Rational(*F(float(v)).as_integer_ratio())
+    sub = {s: rat(x[s.name]) for s in d.state}
+    sub.update({s: rat(cal[s.name]) for s in d.calibration})
+    return {r: float(sympy.sympify(e).xreplace(sub).evalf(30)) for r, e in d.sensors[key].items()}
+
+
+def _fixed_streams(ctx):
+    jobs, live = [], []
+    for sp in _fixed_specs():
+        d, process, sensor, k, cse = sp["d"], sp["process"], sp["sensor"], sp["k"], sp["cse"]
+        d._kind = "ekf"
+        raw = sp.get("raw")
+        cfgdesc = {"stream": sp["name"], "def": d.describe(), "cse": cse, "filtering": k, "container": sp["container"],
+                   "noise": {a: str(b) for a, b in process.items()}, "sensor_noise": {a: {r: str(v) for r, v in b.items()} for a, b in sensor.items()},
+                   "key_spelling": "readings and noises keyed with different types" if raw else "same"}
+        try:
+            ekfs = []
+            for cal in sp["cals"]:
+                # one Python filter object per calibration, each from a FRESH model object and fresh dicts (same expressions, same noises)
+                maps = dict(raw()) if raw else None
+                ekfs.append((eh.compile_ekf(d, process, sensor, cal, None, cse=cse, filtering=k, container=sp["container"], maps=maps), cal))
+            g = cppgen.generate(d, process, sensor, sp["cals"][0], ctx.scratch, "det_" + sp["name"].replace("-", "_"), cse=cse, filtering=k, rng=None,
+                                container=sp["container"], raw_maps=raw() if raw else None)
+        except Exception as e:
+            ctx.fail(f"compile-raises:{fk.exc_kind(e)}", f"a valid definition is refused: {e!r}"[:300], cfgdesc)
+            continue
+        jobs.append((g, d, None))
+        live.append((sp, ekfs, cfgdesc))
+    built = cppgen.build_many(jobs)
+    for (sp, ekfs, cfgdesc), (exe, err) in zip(live, built):
+        if exe is None:
+            ctx.fail("generated-cpp-does-not-compile", "generated filter does not compile: " + err[-500:], cfgdesc)
+            continue
+        for ci, (ekf, cal) in enumerate(ekfs):
+            _fixed_chain(ctx, sp, exe, ekf, cal, dict(cfgdesc, filter_object=ci, cal={a: str(b) for a, b in cal.items()}))
+
+
+def _fixed_chain(ctx, sp, exe, ekf, cal, cfgdesc):
+    d, k = sp["d"], sp["k"]
+    core.set_tolerance(getattr(d, "transcend", False))
+    Ls, Lc, Lk = eh.names_of(d)
+    n = len(Ls)
+    x = {s: float(sp["x0"][s]) for s in Ls}
+    P = np.array([[float(v) for v in r] for r in sp["P0"]], dtype=float)     # rows/cols in name order
+    domain = sp.get("domain")
+    for step, act in enumerate(sp["script"]):
+        if domain is not None and not domain(x):
+            ctx.count("fixed_stream_left_domain"); return
+        do_update = act[0] == "update"
+        st = ekf.State(**x)
+        cv = ekf.Covariance.from_data(P.copy())
+        cur = {"dt": act[1] if not do_update else F(1, 16), "state": x, "cal": cal,
+               "control": {s: (act[2].get(s, F(0)) if not do_update else F(0)) for s in Lc}}
+        case = dict(cfgdesc, step=step, state=dict(x), P=P.tolist(), control={a: str(b) for a, b in cur["control"].items()}, dt=str(cur["dt"]))
+        try:
+            if do_update:
+                key = act[1]
+                Lr = sorted(d.sensors[key])
+                hand = _hand_reading(d, key, x, cal)
+                z = {r: float(F(hand[r]).limit_denominator(1 << 16) + act[2][r]) for r in Lr}
+                case.update(op=f"update:{key}", z=z, by_hand_prediction=hand)
+                line = cppgen.point_line(f"update:{key}", d, cur, P.tolist(), z)
+                with fk.quiet():
+                    r = ekf.sensor_model(st, cv, sensor_key=key, sensor_reading=ekf.make_reading(key, **z))
+                py = {"state": fk.by_name(r.state), "cov": np.asarray(r.covariance.data, dtype=float),
+                      "inn": np.asarray(ekf.innovations[key], dtype=float).reshape(-1).tolist(), "rejected": r.state is st}
+                S = np.asarray(ekf.sensor_prediction_uncertainty[key], dtype=float)
+                y = np.asarray(ekf.innovations[key], dtype=float)
+                nis = float((y.T @ np.linalg.inv(S) @ y).item())
+                m = len(Lr)
+                thr = None if k is None else k * math.sqrt(2 * m) + m
+                near = thr is not None and abs(nis - thr) <= 1e-7 * (1 + thr)
+            else:
+                case.update(op="predict")
+                line = cppgen.point_line("predict", d, cur, P.tolist())
+                with fk.quiet():
+                    r = ekf.process_model(float(cur["dt"]), st, cv, ekf.Control(**{s: float(v) for s, v in cur["control"].items()}))
+                py = {"state": fk.by_name(r.state), "cov": np.asarray(r.covariance.data, dtype=float)}
+                near = False
+        except Exception as e:
+            ctx.fail(f"python-step-raises:{fk.exc_kind(e)}", f"Python filter raises {e!r}"[:300], case)
+            return
+        x_next = {s: float(py["state"][s]) for s in Ls}
+        P_next = 0.5 * (py["cov"] + py["cov"].T)
+        try:
+            out = cppgen.run_exe(exe, [line])[0]
+        except Exception as e:
+            ctx.fail("cpp-step-crashes", repr(e)[:300], case); return
+        ctx.case({k2: v for k2, v in case.items() if k2 not in ("P",)}, (do_update and len(Lr) >= 2) or (not do_update and bool(Lc)))
+        ctx.count("fixed_stream:" + sp["name"]); ctx.count("op=" + ("update" if do_update else "predict")); ctx.count(f"filtering={k}")
+        ctx.traces += 1
+        cs = {s: rh.bitsf(out[f"state.{s}"]) for s in Ls}
+        cP = np.array([[rh.bitsf(out[f"cov.{i}.{j}"]) for j in range(n)] for i in range(n)])
+        sc = max([abs(v) for v in py["state"].values()] + [1.0])
+        if do_update:
+            ctx.count("rejected" if py["rejected"] else "accepted")
+            crej = out["unchanged"] == "1"
+            cinn = [rh.bitsf(out[f"inn.{i}"]) for i in range(len(Lr))] if "inn.0" in out else None
+            hand_inn = [z[r2] - hand[r2] for r2 in Lr]
+            if cinn is None or not all(core.close(a, b, scale=max(map(abs, py["inn"])) if py["inn"] else 1.0) for a, b in zip(cinn, py["inn"])):
+                ctx.fail("py-cpp-innovation", f"stored innovation differs: Python {py['inn']}, C++ {cinn} (reading minus the by-hand prediction: {hand_inn})", case)
+                return
+            if near:
+                ctx.count("inside_rounding_band")
+            elif crej != py["rejected"]:
+                ctx.fail("py-cpp-decision", f"accept/reject differs: Python rejected={py['rejected']}, C++ rejected={crej} (NIS={nis!r}, threshold={thr!r})", case)
+                return
+        which = "update" if do_update else "predict"
+        if not all(core.close(cs[s], py["state"][s], scale=sc) for s in Ls):
+            ctx.fail("py-cpp-state:" + which, f"state differs by name: Python {py['state']}, C++ {cs}", case); return
+        Psc = 1.0 + max(float(np.max(np.abs(py["cov"]))), float(np.max(np.abs(cv.data))))
+        if float(np.max(np.abs(cP - py["cov"]))) > 1e-9 * Psc:
+            ctx.fail("py-cpp-cov:" + which, f"covariance differs: Python {py['cov'].tolist()}, C++ {cP.tolist()}", case); return
+        x, P = x_next, P_next
 
 
 def replay(ctx, data):
